@@ -1118,7 +1118,16 @@ def apply(ex, ctx, st, f, args, dest_ty, term):
         if name == 'unwrap_or':
             return map_ite(o, lambda l: l[2][0] if l[1][2] == 1 else args[1]), st
         if name == 'unwrap_or_default':
-            d = default_value(ex, dest_ty)
+            if dest_ty is None:
+                # called through a function item (`.map(Option::unwrap_or_default)`): the payload type of a Some leaf
+                pt_ = []
+                map_ite(o, lambda l: (pt_.append(ty_of(l[2][0])) if l[1][2] == 1 else None) or l)
+                pt_ = [t_ for t_ in pt_ if t_ in INT_BITS or t_ == 'bool']
+                if not pt_:
+                    raise Uncertified("Option::unwrap_or_default with an unknown payload type")
+                d = C(0, pt_[0])
+            else:
+                d = default_value(ex, dest_ty)
             return map_ite(o, lambda l: l[2][0] if l[1][2] == 1 else d), st
         if name == 'copied' or name == 'cloned':
             return map_ite(o, lambda l: option_some(ex.load(st, l[2][0])) if l[1][2] == 1 else OPTION_NONE), st
